@@ -169,6 +169,10 @@ func check(c optCase) outcome {
 	want := model.Run(q, univ.Copy(c.Input.X), nil, fuel, maxOuts)
 	if d := want.Discard(); d != "" && strings.HasPrefix(d, "resource") {
 		return outcome{discard: d}
+	} else if nondeterministic[d] {
+		// the clock, the local time zone and the input iterator differ between
+		// two runs whatever the optimisation switches are
+		return outcome{discard: d}
 	}
 	ref := run.Exec(base, univ.Copy(c.Input.X), steps, maxOuts)
 	if ref.Panic != "" {
@@ -231,6 +235,9 @@ func check(c optCase) outcome {
 }
 
 // plainAssign: the query text contains a plain `=` operator.
+var nondeterministic = map[string]bool{"unsupported:now": true, "unsupported:localtime": true, "unsupported:strflocaltime": true, "unsupported:date": true, "unsupported:input": true, "unsupported:inputs": true,
+	"unsupported:debug": true, "unsupported:stderr": true, "unsupported:input_filename": true, "unsupported:input_line_number": true}
+
 func plainAssign(q string) bool {
 	for i := 0; i < len(q); i++ {
 		if q[i] != '=' {
